@@ -145,7 +145,19 @@ fn class_rep(s: &str) -> u32 {
 
 fn sort_kind(sort: &ArcSort) -> String {
     let d = format!("{:?}", sort);
-    d.split(|c: char| !c.is_alphanumeric()).next().unwrap_or("").to_string()
+    let kinds = ["MultiSetSort", "VecSort", "SetSort", "MapSort", "PairSort", "FunctionSort"];
+    let mut best: Option<(usize, &str)> = None;
+    for k in kinds {
+        if let Some(i) = d.find(k) {
+            if best.map(|(j, _)| i < j).unwrap_or(true) {
+                best = Some((i, k));
+            }
+        }
+    }
+    match best {
+        Some((_, k)) => k.to_string(),
+        None => d.split(|c: char| !c.is_alphanumeric()).next().unwrap_or("").to_string(),
+    }
 }
 
 pub fn is_relation_sort(name: &str) -> bool {
@@ -485,4 +497,39 @@ impl CanonDump {
         }
         h
     }
+}
+
+// ---------------------------------------------------------------------------
+// pattern queries through the public EGraph::query API
+// ---------------------------------------------------------------------------
+
+/// Run `EGraph::query` for the body `facts_text` (egglog fact syntax), returning for every
+/// match the decoded values of `vars` (name, sort name) in order.
+pub fn query(eg: &mut EGraph, vars: &[(String, String)], facts_text: &str) -> Result<Vec<Vec<Val>>, String> {
+    let cmds = eg.parse_program(None, &format!("(check {facts_text})")).map_err(|e| e.to_string())?;
+    let facts = match cmds.into_iter().next() {
+        Some(egglog::ast::Command::Check(_, facts)) => egglog::ast::Facts(facts),
+        _ => return Err("could not build facts".into()),
+    };
+    let mut sorts: Vec<(String, ArcSort)> = vec![];
+    for (v, s) in vars {
+        let sort = eg.get_sort_by_name(s).cloned().ok_or_else(|| format!("no sort {s}"))?;
+        sorts.push((v.clone(), sort));
+    }
+    let vs: Vec<(&str, ArcSort)> = sorts.iter().map(|(v, s)| (v.as_str(), s.clone())).collect();
+    let res = match catch(|| eg.query(&vs, facts)) {
+        Ok(Ok(r)) => r,
+        Ok(Err(e)) => return Err(e.to_string()),
+        Err(p) => return Err(format!("PANIC {p}")),
+    };
+    let mut out = vec![];
+    for m in res {
+        let mut row = vec![];
+        for (v, s) in &sorts {
+            let val = *m.get(v).ok_or_else(|| format!("match lacks var {v}"))?;
+            row.push(decode_val(eg, s, val, 0));
+        }
+        out.push(row);
+    }
+    Ok(out)
 }
